@@ -147,6 +147,40 @@ def dsym : String → Option RExpr
   | "gsl_sf_psi" => some (.call1 "gsl_sf_psi_1" X)
   | "gsl_sf_psi_1" => some (.call1 "gsl_sf_psi_n#2" X)
   | "gsl_sf_psi_n#2" => some (.call1 "gsl_sf_psi_n#3" X)
+  -- order-parameter families (round 8): `f@k` is f of order (order + k); C_ν′ = (C_{ν−1} − C_{ν+1})/2 for J, Y; I_ν′ = (I_{ν−1} + I_{ν+1})/2;
+  -- K_ν′ = −(K_{ν−1} + K_{ν+1})/2; scaled e^x K_ν: f′ = f − (f_{ν−1} + f_{ν+1})/2; Fermi–Dirac F_j′ = F_{j−1}
+  | "gsl_sf_bessel_Jn@-1" => some (.div (.sub (.call1 "gsl_sf_bessel_Jn@-2" X) (.call1 "gsl_sf_bessel_Jn@0" X)) (q 2))
+  | "gsl_sf_bessel_Jn@0" => some (.div (.sub (.call1 "gsl_sf_bessel_Jn@-1" X) (.call1 "gsl_sf_bessel_Jn@1" X)) (q 2))
+  | "gsl_sf_bessel_Jn@1" => some (.div (.sub (.call1 "gsl_sf_bessel_Jn@0" X) (.call1 "gsl_sf_bessel_Jn@2" X)) (q 2))
+  | "gsl_sf_bessel_Yn@-1" => some (.div (.sub (.call1 "gsl_sf_bessel_Yn@-2" X) (.call1 "gsl_sf_bessel_Yn@0" X)) (q 2))
+  | "gsl_sf_bessel_Yn@0" => some (.div (.sub (.call1 "gsl_sf_bessel_Yn@-1" X) (.call1 "gsl_sf_bessel_Yn@1" X)) (q 2))
+  | "gsl_sf_bessel_Yn@1" => some (.div (.sub (.call1 "gsl_sf_bessel_Yn@0" X) (.call1 "gsl_sf_bessel_Yn@2" X)) (q 2))
+  | "gsl_sf_bessel_Jnu@-1" => some (.div (.sub (.call1 "gsl_sf_bessel_Jnu@-2" X) (.call1 "gsl_sf_bessel_Jnu@0" X)) (q 2))
+  | "gsl_sf_bessel_Jnu@0" => some (.div (.sub (.call1 "gsl_sf_bessel_Jnu@-1" X) (.call1 "gsl_sf_bessel_Jnu@1" X)) (q 2))
+  | "gsl_sf_bessel_Jnu@1" => some (.div (.sub (.call1 "gsl_sf_bessel_Jnu@0" X) (.call1 "gsl_sf_bessel_Jnu@2" X)) (q 2))
+  | "gsl_sf_bessel_Ynu@-1" => some (.div (.sub (.call1 "gsl_sf_bessel_Ynu@-2" X) (.call1 "gsl_sf_bessel_Ynu@0" X)) (q 2))
+  | "gsl_sf_bessel_Ynu@0" => some (.div (.sub (.call1 "gsl_sf_bessel_Ynu@-1" X) (.call1 "gsl_sf_bessel_Ynu@1" X)) (q 2))
+  | "gsl_sf_bessel_Ynu@1" => some (.div (.sub (.call1 "gsl_sf_bessel_Ynu@0" X) (.call1 "gsl_sf_bessel_Ynu@2" X)) (q 2))
+  | "gsl_sf_bessel_In@-1" => some (.div (.add (.call1 "gsl_sf_bessel_In@-2" X) (.call1 "gsl_sf_bessel_In@0" X)) (q 2))
+  | "gsl_sf_bessel_In@0" => some (.div (.add (.call1 "gsl_sf_bessel_In@-1" X) (.call1 "gsl_sf_bessel_In@1" X)) (q 2))
+  | "gsl_sf_bessel_In@1" => some (.div (.add (.call1 "gsl_sf_bessel_In@0" X) (.call1 "gsl_sf_bessel_In@2" X)) (q 2))
+  | "gsl_sf_bessel_Inu@-1" => some (.div (.add (.call1 "gsl_sf_bessel_Inu@-2" X) (.call1 "gsl_sf_bessel_Inu@0" X)) (q 2))
+  | "gsl_sf_bessel_Inu@0" => some (.div (.add (.call1 "gsl_sf_bessel_Inu@-1" X) (.call1 "gsl_sf_bessel_Inu@1" X)) (q 2))
+  | "gsl_sf_bessel_Inu@1" => some (.div (.add (.call1 "gsl_sf_bessel_Inu@0" X) (.call1 "gsl_sf_bessel_Inu@2" X)) (q 2))
+  | "gsl_sf_bessel_Kn@-1" => some (.neg (.div (.add (.call1 "gsl_sf_bessel_Kn@-2" X) (.call1 "gsl_sf_bessel_Kn@0" X)) (q 2)))
+  | "gsl_sf_bessel_Kn@0" => some (.neg (.div (.add (.call1 "gsl_sf_bessel_Kn@-1" X) (.call1 "gsl_sf_bessel_Kn@1" X)) (q 2)))
+  | "gsl_sf_bessel_Kn@1" => some (.neg (.div (.add (.call1 "gsl_sf_bessel_Kn@0" X) (.call1 "gsl_sf_bessel_Kn@2" X)) (q 2)))
+  | "gsl_sf_bessel_Knu@-1" => some (.neg (.div (.add (.call1 "gsl_sf_bessel_Knu@-2" X) (.call1 "gsl_sf_bessel_Knu@0" X)) (q 2)))
+  | "gsl_sf_bessel_Knu@0" => some (.neg (.div (.add (.call1 "gsl_sf_bessel_Knu@-1" X) (.call1 "gsl_sf_bessel_Knu@1" X)) (q 2)))
+  | "gsl_sf_bessel_Knu@1" => some (.neg (.div (.add (.call1 "gsl_sf_bessel_Knu@0" X) (.call1 "gsl_sf_bessel_Knu@2" X)) (q 2)))
+  | "gsl_sf_bessel_Kn_scaled@-1" => some (.sub (.call1 "gsl_sf_bessel_Kn_scaled@-1" X) (.div (.add (.call1 "gsl_sf_bessel_Kn_scaled@-2" X) (.call1 "gsl_sf_bessel_Kn_scaled@0" X)) (q 2)))
+  | "gsl_sf_bessel_Kn_scaled@0" => some (.sub (.call1 "gsl_sf_bessel_Kn_scaled@0" X) (.div (.add (.call1 "gsl_sf_bessel_Kn_scaled@-1" X) (.call1 "gsl_sf_bessel_Kn_scaled@1" X)) (q 2)))
+  | "gsl_sf_bessel_Kn_scaled@1" => some (.sub (.call1 "gsl_sf_bessel_Kn_scaled@1" X) (.div (.add (.call1 "gsl_sf_bessel_Kn_scaled@0" X) (.call1 "gsl_sf_bessel_Kn_scaled@2" X)) (q 2)))
+  | "gsl_sf_bessel_Knu_scaled@-1" => some (.sub (.call1 "gsl_sf_bessel_Knu_scaled@-1" X) (.div (.add (.call1 "gsl_sf_bessel_Knu_scaled@-2" X) (.call1 "gsl_sf_bessel_Knu_scaled@0" X)) (q 2)))
+  | "gsl_sf_bessel_Knu_scaled@0" => some (.sub (.call1 "gsl_sf_bessel_Knu_scaled@0" X) (.div (.add (.call1 "gsl_sf_bessel_Knu_scaled@-1" X) (.call1 "gsl_sf_bessel_Knu_scaled@1" X)) (q 2)))
+  | "gsl_sf_bessel_Knu_scaled@1" => some (.sub (.call1 "gsl_sf_bessel_Knu_scaled@1" X) (.div (.add (.call1 "gsl_sf_bessel_Knu_scaled@0" X) (.call1 "gsl_sf_bessel_Knu_scaled@2" X)) (q 2)))
+  | "gsl_sf_fermi_dirac_int@0" => some (.call1 "gsl_sf_fermi_dirac_int@-1" X)
+  | "gsl_sf_fermi_dirac_int@-1" => some (.call1 "gsl_sf_fermi_dirac_int@-2" X)
   | "gsl_cdf_ugaussian_P" => some (.call1 "gsl_ran_ugaussian_pdf" X)
   | "gsl_ran_ugaussian_pdf" => some (.neg (.mul X (.call1 "gsl_ran_ugaussian_pdf" X)))       -- φ′ = −xφ
   | _ => none
